@@ -460,14 +460,38 @@ pub fn build(rng: &mut Rng, cap: &Capture, class: usize, victim: usize) -> Vec<u
             sub(&mut m, rtpswalk::DATA, 0x04, &b);
         }
         "data_bad_octets_to_inline_qos" => {
-            let o2q = *rng.pick(&[0u16, 1, 3, 15, 17, 100, 65535]);
+            // DATA or DATA_FRAG whose octetsToInlineQos points anywhere: inside the fixed part, just
+            // before / at / just after the end of the submessage, far away; optionally followed by
+            // further submessages, so that "after the submessage" is still inside the datagram
+            let frag = rng.chance(0.35);
+            let tail = rb(rng, 60);
+            let fixed = if frag { 32usize } else { 20 };
+            let body_len = (fixed + tail.len()) as u16;
+            let o2q = match rng.below(3) {
+                0 => *rng.pick(&[0u16, 1, 3, 15, 17, 100, 65535]),
+                1 => body_len.saturating_sub(8) + rng.below(16) as u16,
+                _ => body_len + rng.below(64) as u16,
+            };
             let mut b = vec![0u8, 0];
             b.extend_from_slice(&o2q.to_le_bytes());
             b.extend_from_slice(&rid);
             b.extend_from_slice(&wid);
             b.extend_from_slice(&sn(1 + rng.below(10) as i64));
-            b.extend_from_slice(&rb(rng, 60));
-            sub(&mut m, rtpswalk::DATA, *rng.pick(&[0x02u8, 0x04, 0x06, 0x08, 0x0e]), &b);
+            if frag {
+                b.extend_from_slice(&1u32.to_le_bytes()); // fragmentStartingNum
+                b.extend_from_slice(&1u16.to_le_bytes()); // fragmentsInSubmessage
+                b.extend_from_slice(&64u16.to_le_bytes()); // fragmentSize
+                b.extend_from_slice(&200u32.to_le_bytes()); // sampleSize
+            }
+            b.extend_from_slice(&tail);
+            let id = if frag { rtpswalk::DATA_FRAG } else { rtpswalk::DATA };
+            sub(&mut m, id, *rng.pick(&[0x01u8, 0x03, 0x05, 0x07, 0x09, 0x0f]), &b);
+            if rng.chance(0.6) {
+                for _ in 0..1 + rng.usize(3) {
+                    let n = 4 * (1 + rng.usize(12));
+                    sub(&mut m, *rng.pick(&[rtpswalk::INFO_TS, rtpswalk::HEARTBEAT, 0x7f]), 0x01, &rng.bytes(n));
+                }
+            }
         }
         "data_inline_qos_garbage" => {
             let mut b = vec![0u8, 0, 16, 0];
